@@ -67,8 +67,30 @@ ListingsR ==
     \cup { WithAddrs(<< <<"m", <<o1>> >>, <<"n", <<o2>> >>, <<"m", <<o2, o3>> >> >>)
            : <<o1, o2, o3>> \in {"%rax", "%ecx"} \X {"0x1", "%rax"} \X {"%al", "%cl", "%ax"} }
 
+\* ---- captures inside $deref fields ------------------------------------------
+\* (uses of one name stay at one level: a deref-field capture is compared with deref fields)
+DF(n, fp) == Node("dfield", n, <<fp>>, 1, 1)
+FC(n) == Node("fcap", n, <<>>, 1, 1)
+FL(n) == Node("flit", n, <<>>, 1, 1)
+DR(fs) == Node("deref", "", fs, 1, 1)
+PatternsD ==
+    { PAnd(<<PIns("m", <<DR(<<DF("main_reg", FC("r"))>>)>>), PIns("n", <<DR(<<DF("main_reg", FC("r"))>>)>>)>>),
+      PAnd(<<PIns("m", <<DR(<<DF("main_reg", FC("r")), DF("constant_offset", FC("k"))>>)>>),
+             PIns("n", <<DR(<<DF("main_reg", FC("r")), DF("constant_offset", FC("k"))>>)>>)>>),
+      \* fields written in the README's order (constant_offset first)
+      PAnd(<<PIns("m", <<DR(<<DF("constant_offset", FC("k")), DF("main_reg", FC("r"))>>)>>),
+             PIns("n", <<DR(<<DF("main_reg", FC("r")), DF("constant_offset", FC("k"))>>)>>)>>),
+      PAnd(<<PIns("m", <<DR(<<DF("main_reg", FC("r")), DF("constant_offset", FC("k"))>>)>>),
+             PIns("n", <<DR(<<DF("main_reg", FL("rbx")), DF("constant_offset", FC("k"))>>)>>)>>),
+      PAnd(<<PIns("m", <<DR(<<DF("main_reg", FC("r")), DF("register_multiplier", FC("i")), DF("constant_multiplier", FL("4"))>>)>>),
+             PIns("n", <<DR(<<DF("main_reg", FC("i"))>>)>>)>>),
+      PAnd(<<PIns("m", <<DR(<<DF("main_reg", RNode("frcap", "genreg-1", "genreg", "64"))>>)>>), PIns("n", <<R("genreg", "32")>>)>>) }
+MemD == {"[%rax]", "[%rbx]", "[%rax+0x8]", "[%rbx+0x8]", "[%rax+0x10]", "[%rax+%rbx*4]", "[%rbx+%rax*4]", "%eax", "%ebx"}
+ListingsD == { WithAddrs(<< <<"m", <<o1>> >>, <<"n", <<o2>> >> >>) : o1 \in MemD, o2 \in MemD }
+
 Universe  == [patterns |-> SetToSeq(PatternsI), listings |-> SetToSeq(ListingsI)]
+UniverseD == [patterns |-> SetToSeq(PatternsD), listings |-> SetToSeq(ListingsD)]
 UniverseO == [patterns |-> SetToSeq(PatternsO), listings |-> SetToSeq(ListingsO)]
 UniverseR == [patterns |-> SetToSeq(PatternsR), listings |-> SetToSeq(ListingsR)]
-ASSUME \A P \in PatternsI \cup PatternsO \cup PatternsR : CapsOnSpine(P)
+ASSUME \A P \in PatternsI \cup PatternsO \cup PatternsR \cup PatternsD : CapsOnSpine(P)
 =============================================================================
